@@ -58,8 +58,8 @@ func opaqueParts(t *Term, allow map[string]bool) []string {
 	t.walk(func(x *Term) {
 		var why string
 		switch x.Op {
-		case "closure":
-			why = "function literal " + x.Name
+		case "closure", "func":
+			why = "function value " + x.Name
 		case "zero":
 			// a local array: whatever is read from it was put there by stores or a copy the term does not show
 			if strings.HasPrefix(x.Name, "[") && len(x.Name) > 1 && x.Name[1] >= '0' && x.Name[1] <= '9' {
